@@ -429,7 +429,7 @@ def scenario_size(sc):
     return n
 
 
-def shrink(sc, still_fails, budget=40):
+def shrink(sc, still_fails, budget=25):
     """Greedy simplification of a failing scenario."""
     import copy
     best = copy.deepcopy(sc)
@@ -685,7 +685,16 @@ def main(tier, replay):
             return bool(o) and any(a["signature"] == sig for a in (o[0].get("monitor") or []))
         return pred
 
-    for sig, lst in sorted(findings.items()):
+    def sig_rank(sig):
+        for i, pre in enumerate(("cryptosign:", "wampcra:", "welcome-without", "abort-otherwise", "identity", "handshake")):
+            if sig.startswith(pre):
+                return i
+        return 9
+    ranked = sorted(findings.items(), key=lambda kv: (sig_rank(kv[0]), kv[0]))
+    if len(ranked) > 3:
+        common.info("C09: %d distinct alarm signatures; reporting the first 3: others %s"
+                    % (len(ranked), [k for k, _ in ranked[3:]]))
+    for sig, lst in ranked[:3]:
         lst.sort(key=lambda o: scenario_size(o["scenario"]))
         o = lst[0]
         small = shrink(o["scenario"], fails_with(sig))
@@ -701,7 +710,7 @@ def main(tier, replay):
     if mismatches and not findings:
         # the model and the implementation disagree, the property monitor accepts
         keyed = sorted(mismatches.items(), key=lambda kv: -len(kv[1]))
-        for key, lst in keyed[:3]:
+        for key, lst in keyed[:1]:
             lst.sort(key=lambda x: scenario_size(x[0]["scenario"]))
             o, l, d = lst[0]
 
